@@ -568,6 +568,42 @@ func cmdCheckOracle(args []string) {
 				fmt.Sprintf("verdict=%s msg=%q escaped=%v final len=%d errors=%q", verdict, msg, esc, lastLen, tb.Errors), *seed, 900000, *prof})
 		}
 	}
+	// "non-fatal failure, then skip": the failing case is an Errorf followed by a Skip whose site is also reachable
+	// without the failure on smaller inputs; the test case Check presents must still be one that signalled a failure
+	if *only < 0 || *only == 900001 {
+		gsl := rapid.SliceOfN(rapid.IntRange(0, 100), 0, 30)
+		lastSignalled, lastLen := false, -1
+		prop := func(t *rapid.T) {
+			lastSignalled = false
+			s := gsl.Draw(t, "s")
+			lastLen = len(s)
+			for _, x := range s {
+				if x > 90 {
+					lastSignalled = true
+					t.Errorf("big element %d", x)
+				}
+			}
+			if len(s) > 5 {
+				t.Skip("too long")
+			}
+		}
+		for k := uint64(0); k < 3; k++ {
+			old := setFlags(200, (*seed+k)|1, 400*time.Millisecond, true)
+			tb := &recTB{name: "T"}
+			esc := runTB(func() { rapid.Check(tb, prop) })
+			rapid.VerifSetFlags(old)
+			verdict, _, _, msg, _ := classifyTB(tb)
+			stats["errorf_then_skip_runs"]++
+			if verdict == "ok" || verdict == "onlygen" || verdict == "none" {
+				continue // no failing case found with this seed
+			}
+			if esc != nil || !lastSignalled || strings.Contains(msg, "invalid data") {
+				fails = append(fails, oracleFailure{"C11", "the test case presented as falsifying is one in which nothing failed", "SliceOfN(IntRange(0,100),0,30): Errorf for elements > 90, then Skip when longer than 5", 200, (*seed + k) | 1, "400ms",
+					fmt.Sprintf("verdict=%s msg=%q final replay: len=%d signalled=%v escaped=%v", verdict, msg, lastLen, lastSignalled, esc), *seed, 900001, *prof})
+				break
+			}
+		}
+	}
 	for i := 0; i < *n; i++ {
 		if *only >= 0 && i != *only {
 			continue
